@@ -88,6 +88,10 @@ def build(nres, extras, ff):
         elif attach[0] == 'extra':
             anchors = [extra_keys[attach[1]]]
             resid = mol.nodes[anchors[0]]['resid']
+        elif attach[0] == 'free':
+            # recorded inside a residue but bonded to nothing (an ion, a stray atom, bonds taken from names only)
+            anchors = []
+            resid = attach[1] + 1
         elif attach[0] == 'both':
             # bonded to an earlier unexplained atom AND to a residue atom: closes a ring, so that a
             # placement covering these atoms is no longer an induced subgraph
@@ -239,7 +243,15 @@ def check(nres, extras, mod_names, acc, sample=False):
         ptm_atoms = frozenset().union(*(c for c, _ in comps))
         anchors = frozenset().union(*(a for _, a in comps))
         if not anchors:
-            continue      # an unattached fragment: nothing in the statement about it
+            # unexplained atoms bonded to no template atom: no modification can anchor them, so they have to go, with a warning
+            survivors = [a for a in ptm_atoms if a in mol]
+            expected_warnings += 1
+            if survivors:
+                problems.append(('c14:unexplained-atom-kept(unanchored)', 'atoms %r are bonded to no template atom, so no modification can '
+                                 'explain them, yet %r were kept (labels %r)' % (sorted(ptm_atoms), sorted(survivors),
+                                                                                [m.name for m in mol.nodes[survivors[0]].get('modifications', [])])))
+                break
+            continue
         resids = set(key)
         group_nodes = [n for n in reference.nodes if reference.nodes[n]['resid'] in resids]
         solutions = exact_covers(reference, mod_names, group_nodes, ptm_atoms, anchors)
@@ -293,7 +305,7 @@ def check(nres, extras, mod_names, acc, sample=False):
             sig = 'c14:removed-without-warning' if len(unknown_warnings) < expected_warnings else 'c14:spurious-unknown-input-warning'
             problems.append((sig, '%d unknown-input warnings, %d groups of atoms without a cover' % (len(unknown_warnings), expected_warnings)))
         for node, data in mol.nodes(data=True):
-            if data.get('PTM_atom') and not data.get('modifications') and reference.degree[node] > 0 and not problems:
+            if data.get('PTM_atom') and not data.get('modifications') and not problems:
                 problems.append(('c14:unlabelled-survivor', 'unexplained atom %r survived without any modification label' % (node,)))
     acc.case(nontrivial=bool(extras) and (ncands != 1), outcome=(len(mol), len(unknown_warnings), ncands),
              sample=dict(case, kept=len(mol), warnings=len(unknown_warnings)) if sample else None)
@@ -305,6 +317,7 @@ def all_extras(nres, max_extra):
     sites = [('atom', r, n) for r in range(nres) for n in BLOCK_ATOMS]
     bridges = [('bridge', a, b) for a in range(nres) for b in range(a + 1, nres)]
     first = [(e, s) for e in ELEMENTS for s in sites] + [('S', b) for b in bridges]
+    first += [(e, ('free', r)) for e in ('H', 'S', 'P') for r in range(nres)]
     yield ()
     for one in first:
         yield (one,)
@@ -330,8 +343,105 @@ def all_extras(nres, max_extra):
             yield combo
 
 
+# ----------------------------------------------------------------------------- through RepairGraph, residues sharing a number
+
+LAYOUTS = {
+    'A1-B1': [('A', 1), ('B', 1)],
+    'A1-A2-B2-B3': [('A', 1), ('A', 2), ('B', 2), ('B', 3)],
+    'A7-B7-A8': [('A', 7), ('B', 7), ('A', 8)],
+    'A1-A2': [('A', 1), ('A', 2)],
+}
+PIPE_EXTRAS = {'O-on-C': ('O', 'C', 'OX', 'C-OX'), 'H-on-N': ('H', 'N', 'HX', 'ADD-H'), 'P-on-CA': ('P', 'CA', None, None),
+               'S-on-CA': ('S', 'CA', 'SG', 'CA-S')}
+
+
+def pipeline_case(item, acc):
+    """AnnotateMutMod -> RepairGraph -> CanonicalizeModifications on one molecule whose chains reuse residue numbers: a
+    modification is REQUESTED for one residue; another residue (never named by a request) carries an unexplained atom, which
+    must end up identified (canonical name + label) or removed with an unknown-input warning - not silently dropped."""
+    import vermouth
+    from vermouth.processors.annotate_mut_mod import AnnotateMutMod
+    from vermouth.processors.repair_graph import RepairGraph
+    from vermouth.processors.canonicalize_modifications import CanonicalizeModifications
+    layout, requested, request_mod, extra_kind, extra_res = item
+    case = {'layer': 'pipeline', 'layout': layout, 'requested': requested, 'request_mod': request_mod, 'extra': extra_kind, 'extra_res': extra_res}
+    ff = force_field(tuple(MODS))
+    system = vermouth.System(force_field=ff)
+    mol = vermouth.molecule.Molecule(force_field=ff)
+    key = 0
+    atom_key = {}
+    residues = LAYOUTS[layout]
+    for ridx, (chain, resid) in enumerate(residues):
+        for name in BLOCK_ATOMS:
+            mol.add_node(key, atomname=name, resname='RA', resid=resid, chain=chain, element=name[0], atomid=key + 1)
+            atom_key[(ridx, name)] = key
+            key += 1
+        for a, b in BLOCK_EDGES:
+            mol.add_edge(atom_key[(ridx, a)], atom_key[(ridx, b)])
+        if ridx:
+            mol.add_edge(atom_key[(ridx - 1, 'C')], atom_key[(ridx, 'N')])
+    element, anchor, canonical, label = PIPE_EXTRAS[extra_kind]
+    chain, resid = residues[extra_res]
+    extra = key
+    mol.add_node(extra, atomname='%sZ9' % element, resname='RA', resid=resid, chain=chain, element=element, atomid=key + 1)
+    mol.add_edge(extra, atom_key[(extra_res, anchor)])
+    system.molecules.append(mol)
+    rchain, rresid = residues[requested]
+    try:
+        with common.LogCapture() as log:
+            AnnotateMutMod(modifications=[('%s-RA%d' % (rchain, rresid), request_mod)]).run_system(system)
+            RepairGraph().run_system(system)
+            after_repair = extra in system.molecules[0]
+            CanonicalizeModifications().run_system(system)
+    except Exception as err:   # pylint: disable=broad-except
+        acc.case(outcome='exc')
+        acc.violation('c14:pipeline-exception', 'the pipeline raised %r' % (err,), case)
+        return
+    out = system.molecules[0]
+    warned = 'unknown-input' in log.types()
+    problem = None
+    if canonical is None:
+        if extra in out:
+            problem = ('c14:pipeline-unexplained-atom-kept', 'the %s atom on %s of residue %s%d matches no modification but was kept' % (element, anchor, chain, resid))
+        elif not warned:
+            problem = ('c14:pipeline-removed-without-warning', 'the %s atom on %s of residue %s%d (no request names that residue) was removed without an '
+                       'unknown-input warning (present after RepairGraph: %s)' % (element, anchor, chain, resid, after_repair))
+    else:
+        if extra not in out:
+            if not warned:
+                problem = ('c14:pipeline-removed-without-warning', 'the %s atom on %s of residue %s%d (no request names that residue; modification %s explains it) '
+                           'was removed without an unknown-input warning (present after RepairGraph: %s)' % (element, anchor, chain, resid, label, after_repair))
+            else:
+                problem = ('c14:pipeline-explainable-atom-removed', 'the %s atom on %s of residue %s%d is explained by %s but was removed' % (element, anchor, chain, resid, label))
+        else:
+            node = out.nodes[extra]
+            labels = [m.name for m in node.get('modifications', [])]
+            if node.get('atomname') != canonical or label not in labels:
+                problem = ('c14:pipeline-not-identified', 'the %s atom on %s of residue %s%d should be %s of %s; it is named %r with labels %r' % (
+                    element, anchor, chain, resid, canonical, label, node.get('atomname'), labels))
+    shared = sum(1 for c, r in residues if r == residues[requested][1]) > 1
+    acc.case(nontrivial=shared, outcome=('pipe', extra in out, warned, problem[0] if problem else None))
+    if problem:
+        acc.violation(problem[0], problem[1], case)
+
+
+def pipeline_items():
+    for layout, residues in LAYOUTS.items():
+        for requested in range(len(residues)):
+            for request_mod in ('ADD-H', 'C-OX'):
+                for extra_kind in PIPE_EXTRAS:
+                    for extra_res in range(len(residues)):
+                        if extra_res != requested:
+                            yield layout, requested, request_mod, extra_kind, extra_res
+
+
 def work(task):
     common.bind_repo()
+    if task[0] == 'pipeline':
+        acc = Acc()
+        for item in task[1]:
+            pipeline_case(item, acc)
+        return acc
     nres, extras_list, mod_sets = task
     acc = Acc()
     for extras in extras_list:
@@ -359,10 +469,19 @@ def run(ctx):
     for part in common.pmap(work, tasks):
         acc += part
     ctx.layer('placements', acc)
+    items = list(pipeline_items())
+    acc = Acc()
+    for part in common.pmap(work, [('pipeline', chunk) for chunk in common.chunked(items, max(1, len(items) // 16))]):
+        acc += part
+    ctx.layer('requests-and-shared-residue-numbers', acc)
 
 
 def replay(case):
     common.bind_repo()
+    if case.get('layer') == 'pipeline':
+        acc = Acc()
+        pipeline_case((case['layout'], case['requested'], case['request_mod'], case['extra'], case['extra_res']), acc)
+        return [(s, d) for s, d, _ in acc.violations]
     acc = Acc()
     extras = tuple((e, tuple(a)) for e, a in case['extras'])
     check(case['nres'], extras, tuple(case['mods']), acc)
